@@ -1132,13 +1132,13 @@ def key_prefix(check, type_, c, role):
 def cell_items(docs, tier, pack=300, singles=6):
     """-> list of ('pack'|'singles', type, role, [cells]); packs hold cells expected to be accepted (one run
     per form settles them), the other cells are executed one table each.  Roles: the C18 pool in all three
-    roles, the generated documented-spelling space as nullable measure (thorough: also as identifier)."""
+    roles, the generated documented-spelling space as nullable measure."""
     items = []
     for type_ in TYPES:
         pool = c18_pool(type_, docs)
         space = cell_space(docs, type_, tier)
         for role in ROLES:
-            cells = space if (role == "nm" or (role == "id" and tier == "thorough")) else pool
+            cells = space if role == "nm" else pool
             groups, rest = {}, []
             for c in cells:
                 if c["t"] == "" and role == "nn":
